@@ -180,6 +180,10 @@ func c20Die(p *Program, r *Report) {
 	if s == nil || lc == nil {
 		return
 	}
+	if lc.SchedCleanup == nil {
+		r.Violate("kill chain clears the scheduler", lc.OnKilledFn.Pos(), "no step of the kill chain calls the actor scheduler's Clear after the OnKilled behaviour: a job armed while the actor is stopping (from its OnKill handler, a child's death notice, its own OnKilled) is never removed and keeps firing for the dead actor")
+		return
+	}
 	sg := p.ig(lc.SchedCleanup)
 	clear := nodesWhere(sg, func(in ssa.Instruction) bool {
 		c := callOf(in)
